@@ -35,6 +35,19 @@ def cases(ctx, quick):
     ctx.run_vh(["rewrite", "-in", vf, "-out", cf])
     for c in read_ndjson(cf):
         out.append(dict(id=c["id"], patch=c["patch"], src=c["src"], api_out=c["got"], api_err=c["err"]))
+    # a change that matches but rewrites to the same text: what remains is formatting and import processing,
+    # which every mode and the library must do alike
+    ident = "@@\nvar x expression\n@@\n-foo(x)\n+foo(x)\n"
+    messy = ["package a\n\nimport (\n\t\"os\"\n\t\"example.com/x\"\n\t\"fmt\"\n)\n\nfunc f() { foo(os.Args, x.Y, fmt.Sprint()) }\n",
+             "package a\n\nimport \"os\"\nimport \"example.com/x\"\n\nfunc   f( ) {\n  foo( os.Args,x.Y )\n}\n",
+             "package a\r\n\r\nimport (\r\n\t\"fmt\"\r\n\t\"bytes\"\r\n)\r\n\r\nfunc f() { foo(fmt.Sprint(bytes.MinRead)) }\r\n",
+             "package a\n\nfunc f() { foo(1) }\n",
+             # gofmt-clean, but import processing regroups (standard library first, blank line, others)
+             "package a\n\nimport (\n\t\"example.com/x\"\n\t\"fmt\"\n)\n\nfunc f() { foo(x.Y, fmt.Sprint()) }\n",
+             "package a\n\nimport (\n\t\"fmt\"\n\t\"golang.org/x/tools/imports\"\n\t\"os\"\n)\n\nfunc f() { foo(fmt.Sprint(imports.Debug, os.Args)) }\n",
+             "package a\n\nimport (\n\t\"fmt\"\n\n\n\t\"os\"\n)\n\nfunc f() { foo(fmt.Sprint(os.Args)) }\n"]
+    for i, c in enumerate(messy):
+        out.append(dict(id="ident-%d" % i, patch=ident, src=c, api_out=None, api_err=None))
     # pipeline kinds, every layout incl. CRLF
     for kind in ("match", "generated", "badresult", "nomatch", "replaceerr"):
         for i, c in enumerate(fr.CONTENT[kind] + ([fr.CRLF_MATCH] if kind == "match" else [])):
@@ -95,7 +108,8 @@ def run_modes(ctx, cs):
                                # a diff that does not apply is C12's business (mode agreement), not a parse failure
                                noparse=out.startswith("<diff does not apply"))
             rec = dict(id="%s|%d" % (c["id"], si), m=m, useApi="0" if si else "1",
-                       api=dict(out=c["api_out"] if not c["api_err"] else "", err=c["api_err"] or "", parses="?"))
+                       api=dict(out=c["api_out"] if not c["api_err"] else "", err=c["api_err"] or "", parses="?",
+                                same="1" if (not c["api_err"] and c["api_out"] == c["src"]) else "0"))
             lines.append(rec)
             contents[rec["id"]] = c
     # go/parser verdicts
@@ -165,3 +179,14 @@ def emitted_parses(ctx, known, quick):
     cs = cases(ctx, quick)
     lines, contents = run_modes(ctx, cs)
     return judge(ctx, lines, contents, {"EmittedParses", "FailureReported"}, known, {})
+
+
+def unmatched_identity(ctx, known, quick):
+    """C06 (library half): for a file no change matches the API returns the input bytes themselves."""
+    cs = []
+    for i, c in enumerate(fr.CONTENT["nomatch"] + ["package a\r\n\r\n// crlf only in comments\r\nfunc f() {}\r\n", "package a\n\nfunc f() {\r\n\tbaz()\n}\n"]):
+        cs.append(dict(id="unmatched-%d" % i, patch=fr.PATCH, src=c, api_out=None, api_err=None))
+    for v in frw.text_vectors(ctx, "corpus/nearmiss/vectors.json", "C06")[:0]:
+        pass
+    lines, contents = run_modes(ctx, cs)
+    return judge(ctx, lines, contents, {"UnmatchedApiIdentity"}, known, {})
